@@ -155,4 +155,91 @@ theorem targetStates_closed (c : RCtx) (toSet : S) : ReqClosed c.sch (targetStat
 theorem targetStates_nodup (c : RCtx) (toSet : S) : (targetStates c toSet).Nodup :=
   nodup_sortStates (targetUnsorted_nodup c toSet)
 
+/-! ### what the two sorting passes guarantee -/
+
+/-- with a comparator that is `false` on every pair of the list, insertion sort
+    is the identity. -/
+theorem foldl_insertRev_id (less : Nat → Nat → Bool) (l : S) : ∀ (acc : S),
+    (∀ x y, x ∈ l ++ acc → y ∈ l ++ acc → less x y = false) →
+    l.foldl (fun acc x => insertRev less x acc) acc = l.reverse ++ acc := by
+  induction l with
+  | nil => intro acc _; simp
+  | cons a t ih =>
+    intro acc h
+    simp only [List.foldl_cons, List.reverse_cons, List.append_assoc, List.singleton_append]
+    have ha : insertRev less a acc = a :: acc := by
+      cases acc with
+      | nil => rfl
+      | cons y ys =>
+        simp only [insertRev]
+        rw [h a y (by simp) (by simp)]
+        simp
+    rw [ha]
+    apply ih
+    intro x y hx hy
+    apply h x y
+    · simp only [List.mem_append, List.mem_cons] at hx ⊢
+      rcases hx with hx | hx | hx
+      · exact Or.inl (Or.inr hx)
+      · exact Or.inl (Or.inl hx)
+      · exact Or.inr hx
+    · simp only [List.mem_append, List.mem_cons] at hy ⊢
+      rcases hy with hy | hy | hy
+      · exact Or.inl (Or.inr hy)
+      · exact Or.inl (Or.inl hy)
+      · exact Or.inr hy
+
+theorem isort_id_of_false (less : Nat → Nat → Bool) (l : S)
+    (h : ∀ x y, x ∈ l → y ∈ l → less x y = false) : isort less l = l := by
+  unfold isort
+  rw [foldl_insertRev_id less l [] (by simpa using h)]
+  simp
+
+/-- insertion sort by a key: the reversed prefix stays sorted descending. -/
+theorem insertRev_sorted (key : Nat → Nat) (x : Nat) : ∀ (l : S),
+    l.Pairwise (fun a b => key b ≤ key a) →
+    (insertRev (fun a b => key a < key b) x l).Pairwise (fun a b => key b ≤ key a) := by
+  intro l
+  induction l with
+  | nil => intro _; simp [insertRev]
+  | cons y ys ih =>
+    intro h
+    rw [List.pairwise_cons] at h
+    simp only [insertRev]
+    split
+    · rename_i hlt
+      have hlt' : key x < key y := by simpa using hlt
+      rw [List.pairwise_cons]
+      refine ⟨?_, ih h.2⟩
+      intro z hz
+      have := (insertRev_perm (fun a b => decide (key a < key b)) x ys).mem_iff.1 hz
+      rcases List.mem_cons.1 this with e | e
+      · subst e; omega
+      · exact h.1 z e
+    · rename_i hnlt
+      have hge : key y ≤ key x := by
+        have : ¬ key x < key y := by simpa using hnlt
+        omega
+      rw [List.pairwise_cons]
+      refine ⟨?_, List.pairwise_cons.2 h⟩
+      intro z hz
+      rcases List.mem_cons.1 hz with e | e
+      · subst e; exact hge
+      · have := h.1 z e; omega
+
+theorem foldl_insertRev_sorted (key : Nat → Nat) (l : S) : ∀ (acc : S),
+    acc.Pairwise (fun a b => key b ≤ key a) →
+    (l.foldl (fun acc x => insertRev (fun a b => key a < key b) x acc) acc).Pairwise
+      (fun a b => key b ≤ key a) := by
+  induction l with
+  | nil => intro acc h; exact h
+  | cons a t ih => intro acc h; exact ih _ (insertRev_sorted key a acc h)
+
+/-- `sortRequire` leaves the list sorted by topology index. -/
+theorem sortRequire_sorted (topo l : S) :
+    (sortRequire topo l).Pairwise (fun a b => topoKey topo a ≤ topoKey topo b) := by
+  unfold sortRequire isort
+  rw [List.pairwise_reverse]
+  exact foldl_insertRev_sorted (topoKey topo) l [] List.Pairwise.nil
+
 end Am
